@@ -49,12 +49,20 @@ type caseSpec struct {
 	Occ    int     `json:"occurrence"`
 	Label  string  `json:"occurrence_label"` // "1", "2", "3", "last"
 	// DelayUS > 0: the kill comes that many microseconds after the point, i.e. inside the library call that follows it
-	DelayUS int    `json:"delay_us,omitempty"`
-	Quick   bool   `json:"quick_tier,omitempty"` // the second run does not wait for outlinks still in the producer's batch
-	PwLog   string `json:"-"`                    // internal: log the page writes of the first run to this file
+	DelayUS int  `json:"delay_us,omitempty"`
+	Quick   bool `json:"quick_tier,omitempty"` // the second run does not wait for outlinks still in the producer's batch
+	// Prelude "stopped-life": the job directory has a history: before the first run of this case an earlier life of the job
+	// was started and stopped gracefully while idle (three lives in all: stopped, killed or stopped, drained)
+	Prelude string `json:"prelude,omitempty"`
+	PwLog   string `json:"-"` // internal: log the page writes of the first run to this file
 }
 
 func (c caseSpec) name() string {
+	if c.Prelude != "" {
+		c2 := c
+		c2.Prelude = ""
+		return "after an earlier life of the job that was stopped gracefully while idle: " + c2.name()
+	}
 	if c.Kind == "pwkill" {
 		return fmt.Sprintf("[%s] SIGKILL at page write %d (pwrite64) of the process", c.Conf.name(), c.Occ)
 	}
@@ -244,6 +252,19 @@ func runHistory(cs caseSpec, profile bool, keepDir string) (v verdict) {
 	c := conf(cs.Conf)
 	if err := e2e.PreloadLQ(dir, c.Job, rows); err != nil {
 		hkit.EngineError("preload: %v", err)
+	}
+	// ---- an earlier life of the same job, stopped gracefully
+	if cs.Prelude == "stopped-life" {
+		idle := e2e.MomentByName("idle: preprocessor worker waits for its first seed")
+		spec0 := &e2e.ChildSpec{Dir: dir, Conf: c, Mode: "drain", Quiesce: true, DeadlineS: 50,
+			Triggers: []e2e.Trigger{{Name: "end", Match: idle.Match, N: 1, Do: []string{"stop"}}}}
+		r0, err := e2e.RunChild(spec0, e2e.RunHooks{})
+		if err != nil {
+			hkit.EngineError("child: %v", err)
+		}
+		if r0.Panic != "" || r0.TimedOut || r0.ExitCode != 0 || !r0.Fired("end") {
+			v.Notes = append(v.Notes, fmt.Sprintf("the earlier life did not end as planned: fired=%v exit=%d signal=%s timed-out=%v %s", r0.Fired("end"), r0.ExitCode, r0.Signal, r0.TimedOut, r0.Panic))
+		}
 	}
 	// ---- first run
 	spec := &e2e.ChildSpec{Dir: dir, Conf: c, Mode: "drain", Quiesce: true, DeadlineS: 50, Profile: profile}
@@ -559,6 +580,24 @@ func buildCases(tier string, profiles, preStop map[string]map[string]int64) []ca
 			}
 		}
 		j++
+	}
+	// a job directory with a history: an earlier life of the job, stopped gracefully while idle, then the kill or the stop
+	lives := 0
+	for _, k := range keys {
+		if !(strings.Contains(k, "archiver/archiver.go") && strings.Contains(k, "send guard") || strings.Contains(k, "reactor/reactor.go") && strings.Contains(k, "send r.output") ||
+			strings.Contains(k, "finisher/finisher.go") && strings.Contains(k, "send f.sourceFinishedCh")) {
+			continue
+		}
+		for _, d := range []confDim{{Workers: 2, Seencheck: true}, {Workers: 1, Seencheck: false}} {
+			if profiles[d.name()][k] == 0 || quick && lives%2 != d.Workers%2 {
+				continue
+			}
+			out = append(out, caseSpec{Conf: d, Kind: "kill", Key: k, Occ: 1, Label: "1", Quick: quick, Prelude: "stopped-life"})
+		}
+		lives++
+	}
+	for _, mn := range []string{"archiver takes an item (before client.Do)", "finisher after MarkAsFinished, before the finish message"} {
+		out = append(out, caseSpec{Conf: confDim{Workers: 2, Seencheck: true}, Kind: "stop", Moment: mn, Occ: 1, Label: "1", Quick: quick, Prelude: "stopped-life"})
 	}
 	// the operator's --warc-temp-dir is the job directory itself: what a graceful stop clears away must be spool files only
 	for _, mn := range []string{e2e.DrainedMoment, "finisher after MarkAsFinished, before the finish message", "archiver takes an item (before client.Do)"} {
